@@ -1128,4 +1128,118 @@ theorem zipWith_eq_map_zip' {α β γ} (fn : α → β → γ) (l1 : List α) (l
     | cons b bs => simp only [List.zipWith_cons_cons, List.zip_cons_cons, List.map_cons, ih]
 
 
+/-! ### the Jacobian scatter as a sum over all paths -/
+
+theorem getD_set_eq' (r : List Rat) (i j : Nat) (v : Rat) (hj : j < r.length) :
+    (r.set i v).getD j 0 = if i = j then v else r.getD j 0 := by
+  by_cases h : i = j
+  · subst h; simp [List.getD_eq_getElem?_getD, hj]
+  · simp [List.getD_eq_getElem?_getD, List.getElem?_set_ne h, h]
+
+/-- subtracting a list of (column, value) pairs from a row one after the other: every column ends with its start value
+    minus the sum of ALL values addressed to it -/
+theorem foldl_subAt_getD (pairs : List (Nat × Rat)) (r : List Rat) (j : Nat) (hj : j < r.length) :
+    (pairs.foldl (fun r iv => r.set iv.1 (r.getD iv.1 0 - iv.2)) r).getD j 0 =
+      r.getD j 0 - ((pairs.filter fun iv => iv.1 = j).map (·.2)).sum := by
+  induction pairs generalizing r with
+  | nil => simp
+  | cons iv ps ih =>
+    simp only [List.foldl_cons]
+    rw [ih _ (by simpa using hj), getD_set_eq' _ _ _ _ hj]
+    by_cases h : iv.1 = j
+    · simp only [h, ↓reduceIte, List.filter_cons, decide_true, List.map_cons, List.sum_cons]
+      ring
+    · simp only [h, ↓reduceIte, List.filter_cons, decide_false]
+      simp
+
+/-- the (column, value) pairs of the scatter, read off the transformations directly: one pair per model parameter
+    that is mapped to a NAME — (index of the name in the table, local sensitivity of that model parameter) -/
+def pathPairs (tr : List (String × Target)) (uniq : List String) (sens : List Rat) (n0 : Nat) : List (Nat × Rat) :=
+  (tr.zipIdx n0).filterMap fun ek => ek.1.2.name?.map fun s => (uniq.idxOf s, sens.getD ek.2 0)
+
+theorem scatter_pairs_aux (tr : List (String × Target)) (uniq : List String) (sens : List Rat) (n0 : Nat) :
+    List.zipWith (fun i sj => (i, sj)) ((tr.filterMap (·.2.name?)).map uniq.idxOf)
+      (((((tr.map (·.2)).zipIdx n0).filter fun ti => ti.1.name?.isSome).map (·.2)).map fun j => sens.getD j 0)
+      = pathPairs tr uniq sens n0 := by
+  induction tr generalizing n0 with
+  | nil => rfl
+  | cons e es ih =>
+    have hn : ∀ s, (Target.name s).name? = some s := fun _ => rfl
+    have hc : ∀ v r, (Target.const v r).name? = none := fun _ _ => rfl
+    unfold pathPairs at ih ⊢
+    cases ht : e.2 with
+    | name s =>
+      simp only [List.map_cons, ht, List.zipIdx_cons, hn, Option.isSome_some,
+        List.filter_cons_of_pos, List.filterMap_cons, List.zipWith_cons_cons, Option.map_some]
+      rw [ih (n0 + 1)]
+    | const v r =>
+      simp only [List.map_cons, ht, List.zipIdx_cons, hc, Option.isSome_none,
+        Bool.false_eq_true, not_false_eq_true, List.filter_cons_of_neg, List.filterMap_cons, Option.map_none]
+      rw [ih (n0 + 1)]
+
+theorem scatterRowSum_eq_fold (tr : List (String × Target)) (uniq : List String) (h : NamesIn tr uniq)
+    (row sens : List Rat) :
+    scatterRowSum (mkCondition tr uniq) row sens =
+      (pathPairs tr uniq sens 0).foldl (fun r iv => r.set iv.1 (r.getD iv.1 0 - iv.2)) row := by
+  unfold scatterRowSum
+  have hE : (mkCondition tr uniq).pExternal =
+      (((tr.map (·.2)).zipIdx.filter fun ti => ti.1.name?.isSome).map (·.2)) := rfl
+  simp only [pIndices_eq _ _ h, hE]
+  rw [scatter_pairs_aux tr uniq sens 0]
+
+theorem pathPairs_column_sum (l : List ((String × Target) × Nat)) (uniq : List String) (sens : List Rat)
+    (h : ∀ ek ∈ l, ∀ s, ek.1.2 = .name s → s ∈ uniq) (n : String) :
+    (((l.filterMap fun ek => ek.1.2.name?.map fun s => (uniq.idxOf s, sens.getD ek.2 0)).filter
+        fun iv => iv.1 = uniq.idxOf n).map (·.2)).sum =
+      ((l.filter fun ek => ek.1.2 = .name n).map fun ek => sens.getD ek.2 0).sum := by
+  induction l with
+  | nil => rfl
+  | cons ek l ih =>
+    have ih' := ih (fun ek' he' => h ek' (List.mem_cons_of_mem _ he'))
+    cases ht : ek.1.2 with
+    | name s =>
+      have hs : s ∈ uniq := h ek List.mem_cons_self s ht
+      have hn : (Target.name s).name? = some s := rfl
+      simp only [List.filterMap_cons, ht, hn, Option.map_some, List.filter_cons]
+      by_cases e : s = n
+      · subst e
+        simp only [decide_true, ↓reduceIte, List.map_cons, List.sum_cons, ih']
+      · have h1 : ¬ (uniq.idxOf s = uniq.idxOf n) := fun hh => e (idxOf_inj_of_mem uniq s n hs hh)
+        have h2 : ¬ (Target.name s = Target.name n) := fun hh => e (by injection hh)
+        simp only [h1, h2, decide_false, Bool.false_eq_true, ↓reduceIte, ih']
+    | const v r =>
+      have hc : (Target.const v r).name? = none := rfl
+      have h2 : ¬ (Target.const v r = Target.name n) := fun hh => by cases hh
+      simp only [List.filterMap_cons, ht, hc, Option.map_none, List.filter_cons, h2, decide_false,
+        Bool.false_eq_true, ↓reduceIte, ih']
+
+theorem mem_generateConditions_cond (m : ModelData) (uniq : List String) (hinj : CondInj m)
+    (cd : Condition × List Data) (hcd : cd ∈ generateConditions m uniq) (d : Data) (hd : d ∈ cd.2) :
+    d ∈ m.data ∧ cd.1 = mkCondition d.trans uniq := by
+  unfold generateConditions at hcd
+  simp only [List.mem_filterMap] at hcd
+  obtain ⟨grp, hgrp, h⟩ := hcd
+  cases grp with
+  | nil => simp at h
+  | cons r rest =>
+    simp only [Option.some.injEq] at h
+    subst h
+    obtain ⟨hr, hdm, hs⟩ := mem_groups m _ r d hgrp (List.mem_cons_self) hd
+    exact ⟨hdm, mkCondition_congr _ _ uniq (hinj r hr d hdm hs)⟩
+
+theorem mem_model_jacobian (J : SensFn) (m : ModelData) (uniq : List String) (hinj : CondInj m)
+    (hin : ∀ d ∈ m.data, NamesIn d.trans uniq) (g : List Rat) (row : List Rat) (h : row ∈ m.jacobian J uniq g) :
+    ∃ d ∈ m.data, ∃ x ∈ d.x, row = scatterRowSum (mkCondition d.trans uniq) (List.replicate uniq.length 0)
+      (J (localDirect d.trans uniq g) (bitsToRat x)) := by
+  unfold ModelData.jacobian jacobianOf at h
+  simp only [List.mem_flatMap] at h
+  obtain ⟨cd, hcd, d, hd, hrow⟩ := h
+  obtain ⟨hdm, hc⟩ := mem_generateConditions_cond m uniq hinj cd hcd d hd
+  unfold dataJacobian at hrow
+  simp only [List.mem_map] at hrow
+  obtain ⟨x, hx, rfl⟩ := hrow
+  refine ⟨d, hdm, x, hx, ?_⟩
+  rw [hc, getLocalParams_mkCondition _ _ _ (hin d hdm)]
+
+
 end Verif.C14
